@@ -4,6 +4,11 @@ package vc
 //
 //	//@ structural NAME: no_recover PKG [except PREFIX ...]
 //	//@ structural NAME: only_callers (IFACE).METHOD in PKG: FUNC ...
+//	//@ structural NAME: callees PKG into TARGETPKG: NAME ...
+//
+// callees: every function of TARGETPKG that code of PKG calls or takes the value of is in the
+// list (names as "NewInt", "(*Int).IsInt64", "(Decimal).Sign"). Used to pin the set of
+// math/big and apd operations the encoders apply to caller-owned numbers to read-only ones.
 //
 // no_recover: no function of the package (closures included) calls the recover builtin, except
 // functions whose short key starts with one of the prefixes. Without recover a panic raised below
@@ -173,6 +178,91 @@ func (e *Engine) VerifyStructural(name string) {
 			return
 		}
 		e.Obls = append(e.Obls, &Obligation{Name: oname, Kind: "structural", Func: oname, Goal: True, Clause: fmt.Sprintf("%s (%d call sites in %d functions)", sc.Text, sites, n), Where: where})
+	case "callees":
+		if len(f) < 4 || f[2] != "into" {
+			fail("callees PKG into TARGETPKG: NAME...")
+			return
+		}
+		// PKG may be restricted to functions: pkg@prefix1|prefix2 (prefixes of the short function key)
+		var prefixes []string
+		pk := f[1]
+		if k := strings.Index(pk, "@"); k >= 0 {
+			prefixes = strings.Split(pk[k+1:], "|")
+			pk = pk[:k]
+		}
+		pkg := resolvePkg(pk)
+		target := strings.TrimSuffix(f[3], ":")
+		allowed := map[string]bool{}
+		for _, x := range f[4:] {
+			allowed[strings.TrimSuffix(x, ":")] = true
+		}
+		used := map[string]bool{}
+		var bad []string
+		n := 0
+		nameOf := func(c *ssa.Function) string {
+			if c.Pkg == nil || c.Pkg.Pkg.Path() != target {
+				// methods of instantiated/wrapped types
+				if c.Object() == nil || c.Object().Pkg() == nil || c.Object().Pkg().Path() != target {
+					return ""
+				}
+				return c.RelString(c.Object().Pkg())
+			}
+			return c.RelString(c.Pkg.Pkg)
+		}
+		for _, fn := range fns {
+			if pkgOf(fn) != pkg || len(fn.Blocks) == 0 {
+				continue
+			}
+			sk := shortKey(funcKey(fn))
+			if len(prefixes) > 0 {
+				okp := false
+				for _, pf := range prefixes {
+					if strings.HasPrefix(sk, pf) {
+						okp = true
+					}
+				}
+				if !okp {
+					continue
+				}
+			}
+			n++
+			for _, b := range fn.Blocks {
+				for _, in := range b.Instrs {
+					var ops []*ssa.Value
+					for _, op := range in.Operands(ops) {
+						if op == nil || *op == nil {
+							continue
+						}
+						c, ok := (*op).(*ssa.Function)
+						if !ok {
+							continue
+						}
+						nm := nameOf(c)
+						if nm == "" {
+							continue
+						}
+						used[nm] = true
+						if !allowed[nm] {
+							bad = append(bad, nm+" in "+sk+" @"+e.posOf(in.Pos()))
+						}
+					}
+				}
+			}
+		}
+		if n == 0 {
+			fail("package " + pkg + " has no functions loaded")
+			return
+		}
+		if len(bad) > 0 {
+			fail("calls outside the allowed set: " + strings.Join(bad, "; "))
+			return
+		}
+		var us []string
+		for k := range used {
+			us = append(us, k)
+		}
+		sort.Strings(us)
+		e.Obls = append(e.Obls, &Obligation{Name: oname, Kind: "structural", Func: oname, Goal: True, Clause: fmt.Sprintf("%s (%d functions scanned; used: %s)", sc.Text, n, strings.Join(us, " ")), Where: where})
 	default:
 		fail("unknown structural check " + f[0])
 	}
